@@ -122,3 +122,11 @@ package ice
 //@   ensures a-second-bare-entry-of-a-family-is-rejected: mapping != "" && nparts == 1 && parsedOK && ((v4 && hasIPv4CatchAll) || (!v4 && hasIPv6CatchAll)) ==> result2 != nil
 //@   ensures a-first-bare-entry-is-recorded-for-its-family: mapping != "" && nparts == 1 && parsedOK && !((v4 && hasIPv4CatchAll) || (!v4 && hasIPv6CatchAll)) ==> result2 == nil && result0 == (hasIPv4CatchAll || v4) && result1 == (hasIPv6CatchAll || !v4)
 //@   ensures other-entries-leave-the-flags: mapping == "" || nparts != 1 || !parsedOK ==> result0 == hasIPv4CatchAll && result1 == hasIPv6CatchAll
+
+// The documented default of a rule's mode: host rules (an unspecified candidate type means host) replace the
+// local address, every other type appends to it.
+//@ func defaultAddressRewriteMode
+//@   props C19
+//@   pure
+//@   ensures host-rules-replace-by-default-and-an-unset-type-means-host: (candidateType == CandidateTypeUnspecified || candidateType == CandidateTypeHost) ==> result == AddressRewriteReplace
+//@   ensures other-types-append-by-default: candidateType != CandidateTypeUnspecified && candidateType != CandidateTypeHost ==> result == AddressRewriteAppend
